@@ -47,6 +47,59 @@ theorem finished_or_idle_never_chosen (act : List Ctr) (v : Ctr) (hv : v ∈ sor
   have := (List.mem_filter.mp (mem_sortDesc hv)).2
   simpa using this
 
+/-- **the pool's OOM step as a whole** (`ResourcePool._run_out_of_memory_killer`, the function the pool tick calls): first every container above its
+own allocation is killed; if the pool's usage then fits its capacity nothing else happens; otherwise the candidates — the containers that, after those
+kills, are unfinished and hold memory — are taken in descending score order, and exactly the first `k` of them are killed, where `k` is the least number
+after which the usage fits (or all of them): the usage reported afterwards is the usage minus what those `k` held, every one of them was needed, no
+candidate that survives scores strictly higher than one that was killed, and no other container's kill flag changes. -/
+theorem pool_oom_step_kills_highest_scorers_until_usage_fits (w w' : Store) (p p' : Pool) (hpos : ∀ c ∈ p.active, 0 < c.ram)
+    (h : oomKiller w p = .ok (w', p')) :
+    ∃ w1 act1 cons1, killIndividual w p.active p.consumed = .ok (w1, act1, cons1) ∧
+      (cons1 ≤ p.capR → p'.active = act1 ∧ p'.consumed = cons1 ∧ w' = w1) ∧
+      (¬ cons1 ≤ p.capR →
+        let order := sortDesc (oomCandidates act1)
+        let k := nVictims p.capR cons1 order
+        order.Perm (oomCandidates act1) ∧
+        p'.consumed = cons1 - memSum (order.take k) ∧
+        (k = order.length ∨ p'.consumed ≤ p.capR) ∧
+        (∀ j, j < k → cons1 - memSum (order.take j) > p.capR) ∧
+        (∀ v ∈ order.take k, ∀ s ∈ order.drop k, scoreGe v s = true) ∧
+        (∀ u, (findCtr act1 u.cid).isSome → killedIn p'.active u = (killedIn act1 u || ((order.take k).map (·.cid)).contains u.cid))) := by
+  unfold oomKiller at h
+  simp only at h
+  split at h
+  · cases h
+  · rename_i w1 act1 cons1 hk
+    refine ⟨w1, act1, cons1, hk, ?_, ?_⟩
+    · intro hle
+      rw [if_pos hle] at h
+      simp only [Except.ok.injEq, Prod.mk.injEq] at h
+      obtain ⟨rfl, rfl⟩ := h
+      exact ⟨rfl, rfl, rfl⟩
+    · intro hgt
+      rw [if_neg hgt] at h
+      split at h
+      · cases h
+      · rename_i w2 act2 cons2 hv
+        simp only [Except.ok.injEq, Prod.mk.injEq] at h
+        obtain ⟨rfl, rfl⟩ := h
+        have hpos1 : ∀ c ∈ oomCandidates act1, 0 < c.ram := by
+          intro c hc
+          have hc1 : c ∈ act1 := (List.mem_filter.mp hc).1
+          have hkeys := killIndividual_keys p.active w p.consumed w1 act1 cons1 hk
+          have : key c ∈ p.active.map key := by rw [← hkeys]; exact List.mem_map.mpr ⟨c, hc1, rfl⟩
+          obtain ⟨c0, hc0, e⟩ := List.mem_map.mp this
+          have : c0.ram = c.ram := by simp only [key, Prod.mk.injEq] at e; exact e.2.2
+          rw [← this]; exact hpos c0 hc0
+        have husage := killVictims_usage p.capR _ w1 act1 cons1 w2 act2 cons2 hv
+        refine ⟨(kill_order_is_descending_score _ hpos1).1, husage, ?_, ?_, ?_, ?_⟩
+        · rcases killing_stops_when_usage_fits p.capR (sortDesc (oomCandidates act1)) cons1 with h1 | h1
+          · exact Or.inl h1
+          · exact Or.inr (by simp only; rw [husage]; exact h1)
+        · intro j hj; exact every_kill_was_needed p.capR _ cons1 j hj
+        · intro v hv' s hs; exact no_higher_scorer_survives _ hpos1 p.capR cons1 v s hv' hs
+        · exact killVictims_marks p.capR _ w1 act1 cons1 w2 act2 cons2 hv
+
 /-- non-vacuity: three containers on a pool of capacity 100 using 60+50+30: the highest scorer alone is killed -/
 example :
     let a : Ctr := { cid := 0, ops := [0], cpu := 1, ram := 100, mem := 60, pos := { ops := [] } }
